@@ -468,7 +468,29 @@ func TestRestore(t *testing.T) {
 				return
 			}
 			applyPreState(r, path, kind, pre)
+			lost := ""
+			if r.chance(1, 5) {
+				// one blob of the output is gone from the cache (eviction): Load may fail, but if it
+				// reports success the output must be exact all the same
+				var blobs []string
+				_ = filepath.Walk(config.Global.GetWorkspaceCacheDirectory(), func(p string, fi os.FileInfo, err error) error {
+					if err == nil && fi.Mode().IsRegular() && strings.Contains(p, string(filepath.Separator)+"cas"+string(filepath.Separator)) {
+						blobs = append(blobs, p)
+					}
+					return nil
+				})
+				sort.Strings(blobs)
+				if len(blobs) > 0 {
+					lost = blobs[r.intn(len(blobs))]
+					_ = os.Remove(lost)
+					res.Features = append(res.Features, "one-blob-lost")
+				}
+			}
 			if err := h.Load(e.ctx, target, out, nil); err != nil {
+				if lost != "" {
+					res.Leads = append(res.Leads, "load-error-with-a-lost-blob(expected)")
+					return
+				}
 				if strings.Contains(pre, "(lead)") {
 					res.Leads = append(res.Leads, "load-error "+pre)
 				} else {
@@ -485,6 +507,9 @@ func TestRestore(t *testing.T) {
 			}
 			if d := diffListing(want, got); len(d) > 0 {
 				v := fmt.Sprintf("restore-inexact diff=%s pre=%s kind=%s", strings.Join(d, "+"), pre, kind)
+				if lost != "" {
+					v = fmt.Sprintf("restore-reported-success-but-inexact cause=blob-lost diff=%s kind=%s", strings.Join(d, "+"), kind)
+				}
 				if strings.Contains(pre, "(lead)") {
 					res.Leads = append(res.Leads, v)
 				} else {
